@@ -307,7 +307,7 @@ end whole
 /-! ### the runs of the lifecycle model follow these paths -/
 
 section model
-open Rivaas.Lifecycle
+open Rivaas.Lifecycle Rivaas.Lifecycle.Spec
 
 /-- the result a path shape has -/
 def pathRes : ModelPath → Res → Bool
@@ -373,6 +373,28 @@ theorem model_run_follows_a_path (sc : Scenario) (race : Bool) (nHup : Nat) :
 /-- non-vacuity: a served run with two SIGHUP reloads, and a failed start -/
 example : ∃ sc, pathRes (.served 0) (runSegs current sc false).res = true := ⟨wFull2, by decide⟩
 example : ∃ sc, (runSegs current sc false).res = .errStartup := ⟨wFail, by decide⟩
+
+/-! ### OnStop hooks: the model's `stopHooks` is the executor with a recover per hook — and that is what it takes -/
+
+/-- `stopHooks` (what `runSegs` uses) is `executeStopHooks` with each hook under its own recover: every hook runs, whatever
+    the hooks do, and no panic leaves the loop -/
+theorem stopHooks_is_exec_with_recover (i : Nat) (hs : List HB) : stopHooksExec true i hs = (stopHooks i hs, false) := by
+  induction hs generalizing i with
+  | nil => rfl
+  | cons b rest ih => simp [stopHooksExec, stopHooks, ih]
+
+/-- the observation of a run whose OnStop segment is produced by the executor WITHOUT the per-hook recover -/
+def runWithStopExec (perHook : Bool) (sc : Scenario) (race : Bool) : Obs :=
+  let r := runSegs current sc race
+  { r.obs with log := ({ r.segs with stops := (stopHooksExec perHook 0 sc.stops).1 } : Segs).log }
+
+/-- as it would be with one recover around the whole loop (mutation m8) or none: the second OnStop hook of `wFull2`
+    panics, the third never runs, and the oracle rejects the run ("OnStop hooks run, each exactly once"; a panicking
+    OnStop hook does NOT leave the remaining sequence intact) — with the per-hook recover the same run is accepted -/
+theorem stop_panic_without_per_hook_recover_breaks_oracle :
+    (stopHooksExec false 0 wFull2.stops).1.filterMap stopTag = [(true, 0), (false, 0), (true, 1), (false, 1)] ∧
+    holds wFull2 (runWithStopExec false wFull2 false) = false ∧
+    holds wFull2 (runWithStopExec true wFull2 false) = true := by decide
 
 end model
 
